@@ -1,7 +1,8 @@
 (* C20 — Lazily initialised shared state is safe under every thread interleaving.  Statements only. *)
 From Coq Require Import List Arith Bool ZArith Permutation String.
 From KV Require Import Base.Sx Gen.Generated Model.LazyInit Proofs.LazyInitP Model.TaskGraph Proofs.TaskGraphP
-                       Model.Guarded Proofs.GuardedP Model.SharedSites Proofs.SharedSitesP Model.LockOrder Proofs.LockOrderP Proofs.ReqProgP.
+                       Model.Guarded Proofs.GuardedP Model.SharedSites Proofs.SharedSitesP Model.LockOrder Proofs.LockOrderP Proofs.ReqProgP
+                       Model.PerCall Proofs.PerCallP.
 Import ListNotations.
 Close Scope Z_scope.
 Open Scope nat_scope.
@@ -422,3 +423,139 @@ Theorem C20_requests_example :
   List.length (p_free (r_pool (rc_pool c))) = 2.
 Proof. exact requests_example. Qed.
 Print Assumptions C20_requests_example.
+
+(* ================================================================================================================ *)
+(* strengthening round: state that OUTLIVES A CALL at the sites reached by a multi-threaded load                      *)
+(* ================================================================================================================ *)
+(* PER-CALL STATE ONLY => INTERLEAVING-INDEPENDENT.  For EVERY shared state, thread-local state and deterministic `line`
+   function that never changes the shared state (every write goes to objects the call made itself), any number of
+   threads, EVERY schedule, NO lock: the shared state stays what it was, a thread that has finished (normally or with an
+   exception) ended exactly as it ends when it runs ALONE, a thread that is running has so far done what it does alone *)
+Theorem C20_percall_interleaving_independent :
+  forall (Sh Lo : Type) (line : Sh -> Lo -> act Sh Lo) (start : nat -> Lo), readonly Sh Lo line ->
+  forall sh0 schedule,
+  let c := uexec Sh Lo line start sh0 schedule in
+  g_sh c = sh0 /\
+  (forall t lo, g_th c t = GDone lo -> cs_run Sh Lo line sh0 (start t) sh0 (OFin lo)) /\
+  (forall t, g_th c t = GFail -> cs_run Sh Lo line sh0 (start t) sh0 OCrash) /\
+  (forall t lo, g_th c t = GIn lo -> lines Sh Lo line sh0 (start t) sh0 lo).
+Proof. exact percall_interleaving_independent. Qed.
+Print Assumptions C20_percall_interleaving_independent.
+(* instance: the block function of the applycal corrections (_correction_block: one calc_correction_per_corrprod per
+   dump) -- any gain function g of (parameters, solution interval, channel chunk), any number of dask workers computing any
+   blocks over the ONE CorrectionParams object of the graph, every interleaving: every block is the single-threaded block *)
+Theorem C20_correction_blocks_any_interleaving :
+  forall (P V : Type) (g : P -> nat -> nat -> V) (sol : nat -> nat) p blocks schedule,
+  let c := uexec P (blocal V) (bline P V g sol) (bstart V blocks) p schedule in
+  g_sh c = p /\ (forall t, g_th c t <> GFail) /\
+  forall t lo, g_th c t = GDone lo -> bl_out lo = block_spec P V g sol p (blocks t).
+Proof. exact blocks_any_interleaving. Qed.
+Print Assumptions C20_correction_blocks_any_interleaving.
+(* the block functions dask runs (applycal, vis_flags_weights) AS TRANSLATED consist of reads of shared state, call-local
+   statements, returns of fresh objects / of arguments and writes that are modelled (an output parameter whose callers
+   pass a fresh array; copy on first write); and every write to an object that outlives its call, in all the files whose
+   functions run in worker threads or behind the first-time accesses, is one of the sites a theorem above covers *)
+Theorem C20_worker_functions_per_call_state :
+  forallb (fun s => percall_code_ok (snd s)) c20_worker_fn_skeletons = true /\
+  c20_outparam_callers_fresh = true /\ c20_copy_on_write_ok = true.
+Proof. exact worker_functions_per_call. Qed.
+Print Assumptions C20_worker_functions_per_call_state.
+Theorem C20_worker_functions_listed :
+  map fst c20_worker_fn_skeletons =
+  ["applycal._correction_block"; "applycal.calc_correction_per_corrprod"; "applycal._correction_inputs_to_corrprods";
+   "applycal.apply_vis_correction"; "applycal.apply_weights_correction"; "applycal.apply_flags_correction";
+   "vis_flags_weights._default_zero"; "vis_flags_weights._apply_data_lost"; "vis_flags_weights._narrow";
+   "vis_flags_weights.weight_power_scale"]%string.
+Proof. exact worker_functions_listed. Qed.
+Print Assumptions C20_worker_functions_listed.
+Theorem C20_shared_writes_modelled : c20_shared_writes_unmodelled = [].
+Proof. exact shared_writes_modelled. Qed.
+Print Assumptions C20_shared_writes_modelled.
+(* what a "same as last call" memo on the shared parameter object does without a lock (the answer is read one line after
+   the question was compared; question and answer are stored by two lines): a hit returns ANOTHER call's answer *)
+Theorem C20_memo_unlocked_refuted :
+  exists schedule,
+    let c := uexec _ _ (memo_line nat nat g_ex sol_ex) (mstart_memo nat blocks_ex) (mkMemo 7 None None) schedule in
+    match g_th c 0 with
+    | GDone lo => bl_out (ml_b lo) <> block_spec nat nat g_ex sol_ex 7 (blocks_ex 0)
+    | _ => False
+    end.
+Proof. exact memo_unlocked_refuted. Qed.
+Print Assumptions C20_memo_unlocked_refuted.
+Theorem C20_memo_half_done_refuted :
+  exists schedule,
+    let c := uexec _ _ (memo_line nat nat g_ex sol_ex) (mstart_memo nat blocks_ex2) (mkMemo 7 None None) schedule in
+    match g_th c 1 with
+    | GDone lo => bl_out (ml_b lo) <> block_spec nat nat g_ex sol_ex 7 (blocks_ex2 1)
+    | _ => False
+    end.
+Proof. exact memo_half_done_refuted. Qed.
+Print Assumptions C20_memo_half_done_refuted.
+(* ... and inside a lock: any gain function, blocks, threads, schedule -- every block is the single-threaded block *)
+Theorem C20_memo_locked_safe :
+  forall (P V : Type) (g : P -> nat -> nat -> V) (sol : nat -> nat) (p0 : P) blocks schedule,
+  let c := gexec (memo P V) (mlocal V) (memo_line P V g sol) (mstart_memo V blocks) (mkMemo p0 None None) schedule in
+  (forall t, g_th c t <> GFail) /\
+  forall t lo, g_th c t = GDone lo -> bl_out (ml_b lo) = block_spec P V g sol p0 (blocks t).
+Proof. exact memo_locked_safe. Qed.
+Print Assumptions C20_memo_locked_safe.
+
+(* THE RETRY BUDGET OF A REQUEST IS NOT SHARED BETWEEN IN-FLIGHT REQUESTS.  ANY sequence of borrow / store-budget / send /
+   sleep / give-back / lose events by any threads, the adapters being what the session factory AS TRANSLATED makes them (one
+   per session): no attempt is ever sent with a budget other than the one its own request stored in the adapter of the
+   session it holds; what a thread has stored stays in that slot as long as it holds the session *)
+Theorem C20_retry_budget_private : forall evs,
+  let b := bexec adapter_of evs in
+  b_foreign b = false /\
+  (forall t v, b_set b t = Some v -> exists x, held_by t (r_pool (b_r b)) = Some x /\ b_slot b (adapter_of x) = v) /\
+  r_clash (b_r b) = false /\ p_err (r_pool (b_r b)) = false.
+Proof. exact retry_budget_private. Qed.
+Print Assumptions C20_retry_budget_private.
+(* threads RUNNING request programs (any budgets, any attempt outcomes, either value of the finally / sleep flags), the
+   budget stored before every attempt, every interleaving: additionally no attempt goes out before its own budget is in
+   place or without a borrowed session *)
+Theorem C20_retry_budget_requests_safe : forall fin sl (reqs : nat -> list (Z * list Z)) schedule,
+  let c := bcexec adapter_of (fun t => bthread_prog fin sl true t (reqs t)) schedule in
+  b_foreign (bc_st c) = false /\ b_unset (bc_st c) = false /\
+  r_unheld (b_r (bc_st c)) = false /\ r_clash (b_r (bc_st c)) = false /\ p_err (r_pool (b_r (bc_st c))) = false.
+Proof. exact retry_budget_requests_safe. Qed.
+Print Assumptions C20_retry_budget_requests_safe.
+(* the source: the factory attaches nothing to a session that it did not make itself except the (stateless) authentication
+   handler and the URL; the adapter is made per session; request() stores the budget before every attempt *)
+Theorem C20_session_parts :
+  c20_session_shared_parts = ["auth"; "url"]%string /\ c20_auth_state_writes = [] /\
+  c20_adapter_per_session = true /\ c20_request_sets_budget_first = true.
+Proof. exact session_parts. Qed.
+Print Assumptions C20_session_parts.
+(* what each ingredient buys: ONE adapter for all sessions -> an attempt goes out with another request's budget (although
+   no session is ever in two hands); the budget not stored before the attempt -> an attempt goes out with what was left *)
+Theorem C20_retry_budget_shared_adapter_refuted :
+  exists evs, b_foreign (bexec (fun _ => 0) evs) = true /\ r_clash (b_r (bexec (fun _ => 0) evs)) = false.
+Proof. exact budget_shared_refuted. Qed.
+Print Assumptions C20_retry_budget_shared_adapter_refuted.
+Theorem C20_retry_budget_shared_requests_refuted :
+  exists schedule,
+    let prog := fun t : nat => match t with
+                               | 0 => brequest false true true 0 2%Z [1%Z]
+                               | 1 => brequest false true true 1 2%Z [0%Z; 1%Z]
+                               | _ => [] end in
+    b_foreign (bc_st (bcexec (fun _ => 0) prog schedule)) = true /\
+    b_foreign (bc_st (bcexec (fun x => x) prog schedule)) = false.
+Proof. exact budget_shared_requests_refuted. Qed.
+Print Assumptions C20_retry_budget_shared_requests_refuted.
+Theorem C20_retry_budget_not_stored_refuted :
+  b_unset (bexec (fun x => x) (bthread_prog false true false 0 [(2%Z, [1%Z])])) = true.
+Proof. exact budget_not_stored_refuted. Qed.
+Print Assumptions C20_retry_budget_not_stored_refuted.
+Theorem C20_retry_budget_example :
+  let prog := fun t : nat => match t with
+                             | 0 => bthread_prog c20_pool_call_finally c20_request_sleep_in_borrow c20_request_sets_budget_first 0
+                                                 [(2%Z, [0%Z; 1%Z]); (0%Z, [1%Z])]
+                             | 1 => bthread_prog c20_pool_call_finally c20_request_sleep_in_borrow c20_request_sets_budget_first 1
+                                                 [(2%Z, [0%Z; 0%Z; 1%Z])]
+                             | _ => [] end in
+  let c := bcexec adapter_of prog [0; 1; 0; 1; 1; 0; 0; 1; 1; 0; 0; 1; 1; 1; 1; 0; 0; 0; 0; 0; 1; 1; 1] in
+  (forall t, t < 2 -> bc_rem c t = []) /\ b_foreign (bc_st c) = false /\ b_unset (bc_st c) = false /\
+  p_next (r_pool (b_r (bc_st c))) = 2.
+Proof. exact budget_example. Qed.
+Print Assumptions C20_retry_budget_example.
